@@ -87,10 +87,12 @@ META["C32"] = dict(technique=_FN_TECH, note=_FN_NOTE,
          "ComputeSessionID equal exactly for equal unordered peer pairs, symmetric.")
 REGISTRY["C30"] = ("solicit", "c30")
 REGISTRY["C31"] = ("solicit", "c31")
-META["C30"] = dict(technique=_FN_TECH + "; constraint clauses replayed on the real solicit controller with a harness-played control stream", note=_FN_NOTE,
+META["C30"] = dict(technique=_FN_TECH + "; constraint clauses replayed on the real solicit controller with a harness-played control stream; TLC model checking of SolicitExchange.tla, its histories replayed on two complete real nodes, traces judged by TLC (SolicitExchangeMon.tla)", note=_FN_NOTE,
     text="SolicitHash.tla: the framing fed to the hash is injective over all (protocol id, context) pairs on a two-letter alphabet up to length 2 (every pair with "
          "coinciding concatenation); replayed on ComputeProtocolHash. SolicitMatch.tla: for every small set of local solicitations the hashes announced on the "
-         "control stream of a link and the solicitations offered an incoming stream are exactly those whose protocol/context match and whose peer/transport constraints admit the link.")
+         "control stream of a link and the solicitations offered an incoming stream are exactly those whose protocol/context match and whose peer/transport constraints admit the link. "
+         "SolicitExchange.tla (control-stream exchange, model-checked): every big-step history of <= 5 add / link-up steps (<= 4 with removals) and a sample of burst histories on two complete real nodes "
+         "with a real link: every solicitation both ends hold is matched exactly once, both ends get the same stream, nothing else is matched.")
 META["C31"] = dict(technique="TLC exhaustive model checking of SolicitOwn.tla (statement-level interleavings); gated and random concurrent rounds on the real value and controller; outcomes validated by TLC (SolicitOwnMon.tla)",
     note="Interleavings on the real wrapper are forced with a stream whose Close blocks (gate inside the critical section) plus random races; not every statement-level interleaving of the model is replayed.",
     text="AtMostOneOwner / AcceptedNeverClosed / ClosedNeverReturns: proved on the statement-level model for all interleavings; on the real code for every small set of "
